@@ -17,7 +17,7 @@ import (
 	"verif/harness/vt"
 )
 
-var faultSites = []string{"tempfile", "encode", "sync", "seek", "decode", "pullread", "clearremove"}
+var faultSites = []string{"tempfile", "encode", "sync", "seek", "decode", "pullread", "pulltrunc", "clearremove"}
 
 // Faults runs n random single-fault workloads.
 func Faults(w *vt.W, rng *rand.Rand, n int) {
@@ -28,8 +28,8 @@ func Faults(w *vt.W, rng *rand.Rand, n int) {
 		cs := 1 + rng.Intn(4)
 		np := cs + 1 + rng.Intn(4*cs)
 		site := faultSites[rng.Intn(len(faultSites))]
-		conc := rng.Intn(2) == 0 && (site == "seek" || site == "decode" || site == "pullread" || site == "tempfile")
-		if site == "pullread" {
+		conc := rng.Intn(2) == 0 && (site == "seek" || site == "decode" || site == "pullread" || site == "pulltrunc" || site == "tempfile")
+		if site == "pullread" || site == "pulltrunc" {
 			// the gob decoder reads ahead 4 kB: runs must be longer than that for a
 			// closed descriptor to be noticed, so large padded elements are used
 			cs = 48 + rng.Intn(32)
@@ -45,7 +45,7 @@ func runFault(w *vt.W, id, cs, np int, conc bool, site string, k int, ac bool) {
 		vt.Fatal("tempdir: %v", err)
 	}
 	defer os.RemoveAll(dir)
-	big := site == "pullread"
+	big := site == "pullread" || site == "pulltrunc"
 	var m *morass.Morass
 	if big {
 		m, err = morass.New(sval{}, "r", dir, cs, conc)
@@ -152,6 +152,27 @@ func runFault(w *vt.W, id, cs, np int, conc bool, site string, k int, ac bool) {
 			if site == "clearremove" && n == k%np {
 				break // leave runs registered so that the Clear below has files to remove
 			}
+			if site == "pulltrunc" && n == 0 && !injected {
+				// a run file loses its second half after Finalise (a full disk, a file cut by another process): the
+				// merge meets the end of the file in the middle of a value
+				fs := m.VerifFiles()
+				if len(fs) > 0 {
+					f := fs[k%len(fs)]
+					// the cut is placed inside a message (3 bytes after a message boundary past the middle of the
+					// file): a file that ends exactly between two messages reads as a shorter, intact run, which no
+					// reader of a gob stream can tell from the real thing
+					if data, err := ioutil.ReadFile(f.Name()); err == nil && len(data) > 12000 {
+						for _, b := range gobBoundaries(data) {
+							if b > len(data)/2 && b+3 < len(data) {
+								if os.Truncate(f.Name(), int64(b+3)) == nil {
+									injected = true
+								}
+								break
+							}
+						}
+					}
+				}
+			}
 			if site == "pullread" && n == k%np && !injected {
 				fs := m.VerifFiles()
 				if len(fs) > 0 {
@@ -225,4 +246,29 @@ func runFault(w *vt.W, id, cs, np int, conc bool, site string, k int, ac bool) {
 		"injected": wasInjected, "reported": reported, "pulled": got, "complete": complete,
 		"clearerr": clearErr, "clearinjected": clearInjected, "nofile": noFile, "cleanuperr": cleanErr, "dirleft": statErr == nil,
 		"ac": ac, "drained": drained, "runsleft": runsLeft})
+}
+
+// gobBoundaries returns the offsets at which the messages of a gob stream begin (each message is a byte count in
+// gob's unsigned integer encoding followed by that many bytes).
+func gobBoundaries(data []byte) []int {
+	var out []int
+	for pos := 0; pos < len(data); {
+		out = append(out, pos)
+		b := data[pos]
+		n, hdr := 0, 1
+		if b <= 0x7f {
+			n = int(b)
+		} else {
+			k := -int(int8(b))
+			if k < 1 || k > 8 || pos+1+k > len(data) {
+				return out
+			}
+			for _, c := range data[pos+1 : pos+1+k] {
+				n = n<<8 | int(c)
+			}
+			hdr = 1 + k
+		}
+		pos += hdr + n
+	}
+	return out
 }
